@@ -19,7 +19,7 @@
     function call (or the top level) — [Abort]; an error inside a builtin or in a temporary
     assignment prefix only fails that simple command. *)
 From Coq Require Import String.
-From BV Require Import Base.Prelude Base.Codec Shell.Vars Shell.Env.
+From BV Require Import Base.Prelude Base.Codec Scope.Vars Scope.Env.
 
 (** ** interp.rs apply_assignment *)
 Definition apply_assignment (n : str) (index : option str) (l : vlit) (append export : bool)
